@@ -38,6 +38,9 @@ CONFIG = {
 }
 
 
+KW_NAMES = ("has_child(", "name(", "max(", "min(", "parent(", "unique(", "distinct(")
+
+
 def is_crash(line):
     return line.startswith("(raise (crash")
 
@@ -73,7 +76,9 @@ def classify(case, obs):
         else:
             kinds["crash"] += 1
     dom = max(kinds, key=lambda k: kinds[k])
-    return "docsize%02d:%s" % (min(len(case[0]) // 10, 20), dom)
+    kw = sum(1 for p in case[1] if any(k in p for k in KW_NAMES))
+    return "docsize%02d:%s:kw%s" % (min(len(case[0]) // 10, 20), dom,
+                                    "0" if kw == 0 else ("some" if kw < len(case[1]) else "all"))
 
 
 def nontrivial(case, obs):
@@ -93,9 +98,15 @@ FINDING_PREDS = {"collector_then_text": f25_collector_then_text}
 
 def corpus_chunks():
     yield [("{a: 1, b: 2}", ["(a)b", "(a)'b'", "a.(b)c"]),
+           # keyword segments: the repaired defects and the seeded one
+           ("x: {a: 1}", ["x[has_child(,)]", "x[!has_child(,)]"]), ("x: [[{a: 1}]]", ["x[0:1][0:1][0][max(a)]"]),
+           ("x: {a: 1, b: 2}", ["x.*[parent()]", "x.**[parent()]", "x.*[parent(2)]"]),
+           ("[{k: 1}, null, {k: 0}]", ["[min(k)]", "[max(k)]", "[!min(k)]"]), ("[1, [2], 1]", ["[unique()]", "[distinct()]"]),
            ("[1]", ["[-2]", "/-2", "[0:9]", "[-9:1]"]), ("[null]", ["[.=x]"]), ("{a: [x]}", ["a[.=~/(/]"]),
            ("{1: x, a: y}", ["[a:z]"]), ("[a]", ["[.={[1]:2}]"]), ("['{[1]: 2}']", ["[.=a]"])]
 
 
 def chunks(tier, seed):
-    return ec.chunks_by_weight(ec.gen_cases(tier, seed, with_collectors=True))
+    import itertools
+    return ec.chunks_by_weight(itertools.chain(ec.gen_kw_cases(tier, seed),
+                                               ec.gen_cases(tier, seed, with_collectors=True)))
